@@ -1209,6 +1209,14 @@ class Interp:
     def call_builtin(self, name, args, kwargs, node):
         conc = all(is_concrete(a) and not _has_sym(a) for a in args)
         try:
+            if name in ("str", "repr") and len(args) == 1 and not kwargs and isinstance(args[0], (EnumSym, Obj)):
+                # the class's own __str__/__repr__ (repr falls back to... nothing: object.__repr__ is an address)
+                a = args[0]
+                m = a.cls.lookup("__str__" if name == "str" else "__repr__") or (a.cls.lookup("__repr__") if name == "str" else None)
+                if m is not None:
+                    return self.call_func(m, [], {}, node, self_obj=a)
+                if isinstance(a, EnumSym):
+                    return f"{a.cls.name}.{a.member}" if name == "str" else Sym(f"repr:{a.cls.name}.{a.member}")
             if name == "len":
                 a = args[0]
                 if isinstance(a, _DictView):
